@@ -66,14 +66,14 @@ func genTopProgram(r *hlib.Rand, in any) (string, map[string]bool) {
 	case "try":
 		p = "try " + e()
 	case "trycatch":
-		p = "try " + e() + " catch " + g.pick(".", `"caught"`, "type", "error(\"again\")", "error", "empty", "(., .)", "[.]", "try error(\"c\")")
+		p = "try " + e() + " catch " + g.pick(`"caught"`, "type", "error(\"again\")", "error", "empty", `("a", "b")`, `["c"]`, "try error(\"c\")") // never the message text: compared by class only
 	case "opt":
 		p = e() + g.pick("?", "?", "??", "?")
 		if g.chance(3) {
 			p = g.pick("$in.a?", "$in[]?", "$in.a.b?", "$in[0]?", "$in[]?.k?", "..?", "$in | .[]?")
 		}
 	case "label":
-		p = g.pick("label $out | ("+e()+", break $out, 2)", "label $out | $in[]? | if . == null then break $out else . end", "label $f | try (1, break $f) catch .", "label $a | label $b | ("+x()+", break $b)", "label $out | try error(\"x\")", "label $out | try break $out catch .")
+		p = g.pick("label $out | ("+e()+", break $out, 2)", "label $out | $in[]? | if . == null then break $out else . end", "label $f | try (1, break $f) catch \"c\"", "label $a | label $b | ("+x()+", break $b)", "label $out | try error(\"x\")", "label $out | try break $out catch \"c\"")
 	case "reduce":
 		p = g.pick("reduce $in[]? as $x (0; . + 1)", "reduce "+e()+" as $x (null; $x)", "reduce range(3) as $i ([]; . + ["+x()+"])", "reduce $in[]? as [$a, $b] ({}; .[$a | tostring] = $b)", "reduce (1, 2) as $x (0; error(\"r\"))", "reduce empty as $x (7; .)")
 	case "foreach":
@@ -101,9 +101,9 @@ func genTopProgram(r *hlib.Rand, in any) (string, map[string]bool) {
 	case "cons":
 		p = g.pick("[try "+e()+"]", "{a: try "+e()+"}", "["+x()+", "+e()+"]", "{a: "+x()+", b: "+e()+"}", `"\(try `+e()+`)"`, "[.[]?]", "{(try "+e()+" | tostring): 1}", "[$in, try "+e()+"]")
 	case "ws":
-		p = g.pick(" try "+e()+" ", "try "+e()+" # comment", "try\t"+strings.ReplaceAll(e(), "\t", " "), "  "+x()+"  ", "try "+e()+"  catch  .", "try error(\"x\") # c", "try # c", "(", "try", "try catch", "catch", "try error(\"x\") catch")
+		p = g.pick(" try "+e()+" ", "try "+e()+" # comment", "try\t"+strings.ReplaceAll(e(), "\t", " "), "  "+x()+"  ", "try "+e()+"  catch  type", "try error(\"x\") # c", "try # c", "(", "try", "try catch", "catch", "try error(\"x\") catch")
 	case "trymix":
-		p = g.pick("try "+e()+" | try "+e(), "try try "+e(), "try (try "+e()+" catch error(\"second\"))", "try "+e()+" catch try error(\"h\")", "try try "+e()+" catch .", "try "+e()+"?", "(try "+e()+")?", "try ("+e()+"?)", "try "+e()+".a", "try "+e()+"[0]", "try "+e()+" as $x | $x", "try "+e()+" , try "+e(), "[try "+e()+", try "+e()+"]")
+		p = g.pick("try "+e()+" | try "+e(), "try try "+e(), "try (try "+e()+" catch error(\"second\"))", "try "+e()+" catch try error(\"h\")", "try try "+e()+" catch type", "try "+e()+"?", "(try "+e()+")?", "try ("+e()+"?)", "try "+e()+".a", "try "+e()+"[0]", "try "+e()+" as $x | $x", "try "+e()+" , try "+e(), "[try "+e()+", try "+e()+"]")
 	}
 	p = strings.NewReplacer("\t", " ", "\n", " ").Replace(balance(p))
 	if shape == "ws" && strings.Contains(p, "# ") {
